@@ -341,6 +341,12 @@ def _ends_flow(stmts):
         return True
     if isinstance(last, ast.If):
         return bool(last.orelse) and _ends_flow(last.body) and _ends_flow(last.orelse)
+    if isinstance(last, ast.Try):
+        if last.finalbody and _ends_flow(last.finalbody):
+            return True
+        return _ends_flow(last.orelse if last.orelse else last.body) and all(_ends_flow(h.body) for h in last.handlers)
+    if isinstance(last, ast.With):
+        return False
     return False
 
 
@@ -1210,7 +1216,7 @@ class Normalizer:
         for s in body:
             r = rr.visit(s)
             newbody += r if isinstance(r, list) else [r]
-        if not newbody or not isinstance(newbody[-1], InlineJump):
+        if not newbody or not _ends_flow(newbody):
             tail = ast.Assign(targets=[ast.Name(id=ret, ctx=ast.Store())], value=ast.Constant(value=None), type_comment=None)
             ast.copy_location(tail, call)
             ast.fix_missing_locations(tail)
